@@ -118,8 +118,9 @@ class Run:
                              % (self.pid, v["rule"], v["construct"], self.known[k].get("what_fails", v["message"])))
             else:
                 new.append(v)
-        if error is None and not self.quiet:
+        if not self.quiet:
             os.makedirs(self.out_dir, exist_ok=True)
+        if error is None and not self.quiet:
             for f in os.listdir(self.out_dir):
                 if f.startswith("v-"):
                     try:
